@@ -70,6 +70,17 @@ def match_zero_vector(z):
     return None
 
 
+def flat_dict(t):
+    """entries of a dict literal with nested `**{...}` literals spliced in"""
+    out = []
+    for k, v in t[1]:
+        if k is None and v[0] == 'dict':
+            out.extend(flat_dict(v))
+        else:
+            out.append((k, v))
+    return out
+
+
 def pcm_paths(ctx):
     return summarise(ctx, PCM + '.__call__', policy=default_policy)
 
@@ -148,7 +159,7 @@ def s2_s3_call(ctx):
             if ok:
                 rec = apps[0].value[2][1]
                 ok = (rec[0] == 'call' and rec[1] == ('ext', 'UPDATED') and rec[2][0] == ('dict', ((('str', 'Date'), V('dt')),)) and rec[2][1] == w) or \
-                    (rec[0] == 'dict' and rec[1] == ((('str', 'Date'), V('dt')), (None, w)))
+                    (rec[0] == 'dict' and flat_dict(rec) == [(('str', 'Date'), V('dt'))] + flat_dict(('dict', ((None, w),))))
             ctx.require(ok, 'C09.S3', 'the recorded target allocation is the same full weight vector the sizer received, dated dt', apps[0].site if apps else fn.site(),
                         fmt(apps[0].value[2][1])[:200] if apps else 'no record', key='C09.S3|record')
         else:
